@@ -1079,8 +1079,8 @@ fn start_monitor() {
             let mut since = std::time::Instant::now();
             let mut asleep_samples = 0u32;
             loop {
-                std::thread::sleep(std::time::Duration::from_millis(50));
                 let patience = FOREIGN_AFTER_MS.load(Ordering::Relaxed);
+                std::thread::sleep(std::time::Duration::from_millis((patience / 4).clamp(5, 50)));
                 let steps = GLOBAL_STEPS.load(Ordering::Relaxed);
                 if patience == 0 || !RUN_ACTIVE.load(Ordering::Relaxed) || steps != last_steps {
                     last_steps = steps;
